@@ -153,6 +153,29 @@ def run():
                         viol(name, key, "IndexError for an index < len(forest)")
                 except Exception as ex:  # noqa
                     viol(name, key, f"raised {type(ex).__name__}")
+    # counts beyond the machine index range (Python ints are unbounded; len() is not): indexing still works
+    for ws in ((2 ** 64,), (2 ** 63, 5), (1, 2 ** 70)):
+        total = sum(ws)
+        f = Forest.__new__(Forest)
+        f.result = P([Alt(w) for w in ws])
+        f.parser = None
+        if f.solutions != total:
+            viol("Forest.solutions", {"weights": list(ws)}, {"solutions": f.solutions, "expected": total})
+        for idx in (0, 1, ws[0], total - 1, total, total + 1):
+            for name, fn in (("Forest.get_tree", f.get_tree), ("Forest.get_nonlazy_tree", f.get_nonlazy_tree),
+                             ("Forest.__getitem__", f.__getitem__)):
+                out["evaluations"] += 1
+                out["nontrivial"] += 1
+                key = {"weights": list(ws), "idx": idx}
+                try:
+                    fn(idx)
+                    if idx >= total:
+                        viol(name, key, "no IndexError for an index >= forest.solutions")
+                except IndexError:
+                    if idx < total:
+                        viol(name, key, "IndexError for an index < forest.solutions")
+                except Exception as ex:  # noqa
+                    viol(name, key, f"raised {type(ex).__name__}: {str(ex)[:80]}")
     # ---- NodeNonTerm.solutions / NodeTerm.solutions ----------------------------------------------------
     for ws in itertools.chain([()], weight_vectors()):
         out["evaluations"] += 1
@@ -166,9 +189,11 @@ def run():
                      "Tree._enumerate_children", "LazyTree.__getattr__", "Forest.get_tree", "Forest.get_nonlazy_tree",
                      "Forest.__getitem__", "Forest.__len__", "Forest.solutions", "Forest._check_index",
                      "NodeNonTerm.solutions", "NodeTerm.solutions"]
+    # helpers exercised only through their callers
+    out["aliases"] = {"Forest._check_index": ["Forest.get_tree", "Forest.get_nonlazy_tree", "Forest.__getitem__"]}
     out["rule"] = ("companions of the trees.py contracts: stub packed nodes with 1..3 alternatives of weight 1..3, "
                    "every counter 0..total+2; up to 3 packed children with alternative weights from a fixed set, "
-                   "every in-range counter; real Tree/LazyTree/Forest/NodeNonTerm code")
+                   "every in-range counter; forests of 2**64 and more trees at the boundary indices; real Tree/LazyTree/Forest/NodeNonTerm code")
     return out
 
 
